@@ -536,3 +536,11 @@ pub fn canonicalize<S: AsRef<[u8]>>(input: S) -> Result<String, LanguageIdentifi
 fn invalid_subtag() {
     assert!(LanguageIdentifier::from_bytes("en-ÁÁÁÁ".as_bytes()).is_err());
 }
+
+/// Verification hook (only with `--cfg unic_locale_verif`): read access to the compiled
+/// character-direction tables.
+#[cfg(unic_locale_verif)]
+#[doc(hidden)]
+pub mod verif_layout_table {
+    pub use crate::layout_table::*;
+}
